@@ -706,3 +706,114 @@ def unit_writer_sweep():
         limit = 10**9 if ctx.thorough else o.quick_cases
         return [sweep("C14/sweep/write then read back", itertools.islice(o.cases(ctx), limit), o.check, "bounded", o.bound, describe=o.describe, function="validio.Writer + rowio writers + validio.rows", unit="C14.sweep")]
     return NativeUnit("C14.sweep", "bounded sweep: Writer emits exactly the accepted rows, nothing for rejected ones, output validates again (incl. after an earlier read with the same CID)", ["C14", "C08"], run, kind="bounded")
+
+
+# =====================================================================================================================
+# module-level rows() / validate(): the reader is always closed (with-statement), also when abandoned; islice limit (C07 C08 C20)
+# =====================================================================================================================
+ITEMT = Abs("Item")
+
+
+def m_new_reader(ex, st, info, args, kw):
+    r = Ref("Reader"); st.heap[r.oid] = {}
+    st.ghost["reader"] = r; st.ghost["reader_args"] = (list(args), dict(kw))
+    yield st, r
+
+
+def m_reader_rows(ex, st, recv, args, kw):
+    def raise_fault(ex_, s):
+        s.ghost["rows_raised"] = True
+        for s2, e in raise_new(ex_, s, "DataError"): s2.ghost["rows_exc"] = e.exc; yield s2, e
+    yield st, FallibleIter(st.ghost["items"], st.ghost["fail_at"], raise_fault)
+
+
+def m_reader_close(ex, st, recv, args, kw):
+    st.ghost["close_calls"] = st.ghost["close_calls"] + 1
+    fail = fresh(BOOL, "end_check_fails")[0]
+    for s2, b in ex.fork(st, fail):
+        if b:
+            for s3, e in raise_new(ex, s2, "CheckError"): s3.ghost["close_exc"] = e.exc; yield s3, e
+        else: yield s2, None
+
+
+def m_islice(ex, st, fn, args, kw):
+    it, n = args[0], lift(unopt(args[1])).z
+    seq = it.seq
+    cut = UFL(seq.elem_ty, seq.at, z3.If(n < seq.length, n, seq.length))
+    f = lift(it.fail_at).z
+    yield st, FallibleIter(cut, Sym(INT, z3.If(z3.And(f >= 0, f < n), f, -1)), it.raise_fn)
+
+
+def setup_module_rows(which):
+    def setup(ex, st):
+        items, c = fresh(UFList(ITEMT), "items"); st.pc.extend(c)
+        vu = fresh(Opt(INT), "validate_until")[0]; so = sort_of(Opt(INT)); st.pc.append(z3.Or(so.is_none(vu.z), so.val(vu.z) >= 0))
+        env = {"cid_or_path": Ref("Cid"), "data_stream_or_path": Ref("Stream"), "validate_until": vu}
+        if which == "rows": env["on_error"] = fresh(STR, "on_error")[0]; st.pc.append(z3.Or(*[env["on_error"].z == m for m in ("raise", "yield", "continue")]))
+        st.frames[-1].env.update(env)
+        st.ghost.update({"items": items, "fail_at": fresh(INT, "fail_at")[0], "close_calls": 0, "rows_raised": False, "abandoned": False, "vu": vu, "env0": dict(env),
+                         "out": Sym(SeqList(ITEMT), z3.Empty(sort_of(SeqList(ITEMT)))), "consumed": 0, "rows_exc": None, "close_exc": None})
+        def hook(s, v): s.ghost["out"] = Sym(SeqList(ITEMT), z3.Concat(lift(s.ghost["out"]).z, z3.Unit(lift(v).z)))
+        ex.yield_hook = hook
+        ex.model_abandon = (which == "rows")
+    return setup
+
+
+def _reader_built_ok(which):
+    def f(ex, st):
+        a, kw = st.ghost.get("reader_args", (None, None)); e0 = st.ghost["env0"]
+        if a is None: return Sym(BOOL, z3.BoolVal(False))
+        if which == "rows": ok_ = len(a) == 4 and a[0] is e0["cid_or_path"] and a[1] is e0["data_stream_or_path"] and a[2] is e0["on_error"] and a[3] is e0["validate_until"]
+        else: ok_ = len(a) == 2 and a[0] is e0["cid_or_path"] and a[1] is e0["data_stream_or_path"] and kw.get("validate_until") is e0["validate_until"] and "on_error" not in kw
+        return Sym(BOOL, z3.BoolVal(bool(ok_)))
+    return f
+
+
+def sf_out_prefix(ex, st, k):
+    out = lift(st.ghost["out"]).z; items = st.ghost["items"]; kk = lift(k).z; j = z3.Int("j!op")
+    return Sym(BOOL, z3.And(z3.Length(out) == kk, z3.ForAll([j], z3.Implies(z3.And(0 <= j, j < kk), out[j] == items.at(j)))))
+def sf_closed_once(ex, st): return Sym(BOOL, z3.BoolVal(st.ghost["close_calls"] == 1))
+def sf_flag(name):
+    return lambda ex, st: Sym(BOOL, z3.BoolVal(bool(st.ghost[name])))
+def sf_exc_is(name):
+    return lambda ex, st: Sym(BOOL, z3.BoolVal(st.ghost.get("__exc__") is not None and st.ghost.get("__exc__") == st.ghost.get(name)))
+
+
+def module_rows_contract():
+    return Contract("validio.rows", setup_module_rows("rows"),
+        returns=[Clause("out_prefix(len(items))", "passes-on-everything-the-reader-produces-in-order", props=["C06", "C07"]),
+                 Clause("closed_once() and not did_rows_raise()", "reader-closed-exactly-once-at-the-end", props=["C08", "C20", "C05"]),
+                 Clause(_reader_built_ok("rows"), "reader-gets-cid-data-mode-and-limit-unchanged", props=["C06", "C07"])],
+        raises={"DataError": [Clause("closed_once()", "reader-closed-exactly-once-also-when-a-row-error-or-end-check-stops-the-run", props=["C08", "C20", "C05"]),
+                              Clause("implies(did_rows_raise(), out_prefix(fail_at))", "rows-before-the-error-were-passed-on", props=["C06"])],
+                "GeneratorExit": [Clause("closed_once()", "abandoning-the-iteration-still-closes-the-reader-(end-checks-and-cleanup-run)", props=["C08", "C20"])]},
+        loops={0: LoopSpec(invariants=["out_prefix(_i0)", "not did_rows_raise()"], havoc={"row": ITEMT}, ghost_havoc={"out": SeqList(ITEMT)})},
+        expect=["return", "DataError", "GeneratorExit"], n_loops=1)
+
+
+def module_validate_contract():
+    def consumed_ok(ex, st):
+        so = sort_of(Opt(INT)); vu = G(st, "vu"); n = st.ghost["items"].length; i = lift(st.frames[-1].env.get("_i0", 0)).z
+        lim = z3.If(so.is_none(vu), n, z3.If(so.val(vu) < n, so.val(vu), n))
+        return Sym(BOOL, i == lim)
+    return Contract("validio.validate", setup_module_rows("validate"),
+        returns=[Clause(consumed_ok, "consumes-exactly-min(limit,-data-rows)-rows-of-the-reader", props=["C07"]),
+                 Clause("closed_once() and not did_rows_raise()", "reader-closed-exactly-once-at-the-end", props=["C08", "C20", "C05"]),
+                 Clause(_reader_built_ok("validate"), "reader-gets-cid-data-and-limit-unchanged-in-raise-mode", props=["C07"])],
+        raises={"DataError": [Clause("closed_once()", "reader-closed-exactly-once-also-on-error", props=["C08", "C20"]),
+                              Clause(lambda ex, st: Sym(BOOL, z3.Implies(z3.BoolVal(bool(st.ghost["rows_raised"])),
+                                        z3.Or(sort_of(Opt(INT)).is_none(G(st, "vu")), G(st, "fail_at") < sort_of(Opt(INT)).val(G(st, "vu"))))), "a-rejection-is-reported-only-within-the-first-N-data-rows", props=["C07"])]},
+        loops={0: LoopSpec(invariants=["not did_rows_raise()"], havoc={"_": ITEMT})},
+        expect=["return", "DataError"], n_loops=1)
+
+
+def unit_module_rows_validate():
+    def make(ctx):
+        cal = {"class:Reader": m_new_reader, "ref:Reader.rows": m_reader_rows, "ref:Reader.close": m_reader_close, "builtin:itertools.islice": m_islice}
+        sf = {"out_prefix": sf_out_prefix, "closed_once": sf_closed_once, "did_rows_raise": sf_flag("rows_raised")}
+        A = ["Reader.rows / Reader.close are used through their contracts (verified units): rows() yields a finite sequence and may stop with a DataError; close() may raise a CheckError",
+             "itertools.islice(it, n) delivers the first min(n, len) items and then stops without exhausting `it`",
+             "abandonment is modelled as GeneratorExit raised at the yield (CPython semantics of generator.close())"]
+        return [{"contract": module_rows_contract(), "callees": cal, "spec_functions": sf, "label": "rows()", "assumptions": A},
+                {"contract": module_validate_contract(), "callees": cal, "spec_functions": sf, "label": "validate()", "assumptions": A}]
+    return ProofUnit("validio.rows+validate", "module-level rows()/validate(): reader always closed exactly once (also on error / abandonment); validate() stops after N data rows", ["C07", "C08", "C20", "C06", "C05"], make, None)
